@@ -62,7 +62,7 @@ CLAIMED.update({
                 "(a Receiver, checked from resolved generic args) is enqueued in the caller's body before the work is spawned "
                 "(dominance); the consumer blocks on the dequeued ticket (callee is Receiver::recv, never try_recv) before write_frame; "
                 "EOF marker before Ok; MT and ST writers share the chunking constant (evaluated) and codecs; no explicit panic in the MT writer (the Done state entered after a sink failure is an error exit). Termination of finish() is not decided.",
-        "note": "trusts crossbeam FIFO, rayon::spawn-once, JoinHandle::join; no yield hook is needed by this technique; genuine defect F9 (finish() panicked after a surfaced sink failure) repaired (fix: e72c97b); R9 sibling rule: every BGZF reader skips empty blocks; round 8: genuine defect F64 (failed block: buffer dropped, position not advanced) repaired (fix: f8994d2; R10)",
+        "note": "trusts crossbeam FIFO, rayon::spawn-once, JoinHandle::join; no yield hook is needed by this technique; genuine defect F9 (finish() panicked after a surfaced sink failure) repaired (fix: e72c97b); R9 sibling rule: every BGZF reader skips empty blocks; round 8: genuine defect F64 (failed block: buffer dropped, position not advanced) repaired (fix: f8994d2; R10); round 9: R11 the caller's bytes reach only the staging buffer (seed: block cut straight from the caller's slice)",
         "technique": "static analysis: closure-capture ownership, dominance of ticket send over spawn, callee identity of blocking receives (MIR)",
         "design_ref": "§5 C03",
     },
@@ -107,7 +107,7 @@ CLAIMED.update({
                 "the reader accepts after a backslash (match-pattern tables), values always quoted, owned record built from the lazy accessors, "
                 "line buffers reset before every appended line (incl. the blank-line skip loop), BED field scanner copies before it consumes, "
                 "the GTF closing-quote scan knows the escape character, owned GFF comments are built from as_comment, BED read_record_N resets every reused field.",
-        "note": "known findings F7 (seqid encoded, never decoded) and F15 by exact key; genuine defects F27 (93f23c6) and F28 (c4084e9) found by R3/R4 and repaired; equality over arbitrary UTF-8 not decided; R8 no float->int / narrowing `as` casts in the text writers; round 7: R3 escape-state clause (seed: closing quote by look-behind of one byte)",
+        "note": "known findings F7 (seqid encoded, never decoded) and F15 by exact key; genuine defects F27 (93f23c6) and F28 (c4084e9) found by R3/R4 and repaired; equality over arbitrary UTF-8 not decided; R8 no float->int / narrowing `as` casts in the text writers; round 7: R3 escape-state clause (seed: closing quote by look-behind of one byte); round 9: R9 the lazy directive view does not trim",
         "technique": "static analysis: evaluated AsciiSet constants, HIR match-pattern sets, caller sets of encode/decode helpers",
         "design_ref": "§5 C18",
     },
@@ -120,7 +120,7 @@ CLAIMED.update({
                 "widths/endianness with multiplicity, constants, ErrorKinds, try_from type pairs, casts) must be equal modulo a frozen, "
                 "partly triaged difference table. Decides: no twin was edited alone (dropped validate/intersects/resolve, changed width, "
                 "endianness, magic or conversion), plus the stamp/position pairing of the async BGZF reader. Does not decide equality under every poll schedule, nor order of operations.",
-        "note": "the sync side is pinned by the unit tests; frozen differences are recorded behaviour, not claimed equivalent; a benign one-sided edit that adds a token is reported (documented precision limit); genuine defect F29 repaired (fix: d58c4c8; rules R4 drained value vs Pending, R5 state machine); genuine defect F32 (async CSI writer omitted n_ref; it sat in the frozen difference table) repaired (fix: b31c2e2); round 7: genuine defects F48 (async CSI loffset; fix: a197616) and F49 (async FASTA read_sequence count; fix: d7fa034; R8) repaired; R7 digesting-wrapper rule shared with C12.R9",
+        "note": "the sync side is pinned by the unit tests; frozen differences are recorded behaviour, not claimed equivalent; a benign one-sided edit that adds a token is reported (documented precision limit); genuine defect F29 repaired (fix: d58c4c8; rules R4 drained value vs Pending, R5 state machine); genuine defect F32 (async CSI writer omitted n_ref; it sat in the frozen difference table) repaired (fix: b31c2e2); round 7: genuine defects F48 (async CSI loffset; fix: a197616) and F49 (async FASTA read_sequence count; fix: d7fa034; R8) repaired; R7 digesting-wrapper rule shared with C12.R9; round 9: R9 loop-exit signature of plain helper twins (seed: ancestor walk of the async CSI writer stops early)",
         "technique": "static analysis: Engler-style sibling cross-checking over resolved call regions and MIR token multisets",
         "design_ref": "§5 C16",
     },
@@ -160,7 +160,7 @@ CLAIMED.update({
                 "container-header readers (sync and async) and the writer's CRC taken from its CrcWriter; dec∘enc = id for all CRAM code tables; "
                 "Encoder->CompressionMethod labelling; the 28 data series and the guard edges that dominate each accessor call agree between "
                 "slice reader and slice writer (guard signatures); AP delta symmetry; append-buffer discipline of the header/token readers. Record equality and codec correctness are not decided.",
-        "note": "trusts flate2 CRC and md5; symmetric read_x/write_x structure is floor-checked; three guard asymmetries are tabled with reasons; known finding F31 (quality-score-array flag set for QUAL * records: noodles' own output unreadable) by exact key (rule R9); genuine defect F35 (fqzcomp block raw size) repaired (fix: 56b15b8; rule R10); genuine defects F38 (unnamed record shifts the names after it; fix: c0147a7; R11) and F39 (version 3.0 declared with fqzcomp / a 3.1 default encoder; fix: c5a1551; R12) repaired; F40 (TLEN sign by file order; fix: 19a8e71; R13) repaired; round 7: R15 memo coherence (seed: stale reference-sequence memo in Slice::records)",
+        "note": "trusts flate2 CRC and md5; symmetric read_x/write_x structure is floor-checked; three guard asymmetries are tabled with reasons; known finding F31 (quality-score-array flag set for QUAL * records: noodles' own output unreadable) by exact key (rule R9); genuine defect F35 (fqzcomp block raw size) repaired (fix: 56b15b8; rule R10); genuine defects F38 (unnamed record shifts the names after it; fix: c0147a7; R11) and F39 (version 3.0 declared with fqzcomp / a 3.1 default encoder; fix: c5a1551; R12) repaired; F40 (TLEN sign by file order; fix: 19a8e71; R13) repaired; round 7: R15 memo coherence (seed: stale reference-sequence memo in Slice::records); round 9: R16 substitution-matrix row sorted as a whole; genuine defect F65 (TLEN of mates on different references) repaired",
         "technique": "static analysis: evaluated constants, guard dominance, HIR match-table agreement, guard-signature comparison of sibling codecs (MIR edge dominance)",
         "design_ref": "§5 C07",
     },
@@ -182,7 +182,7 @@ CLAIMED.update({
                 "readers, read_exact for bodies, CRC/ISIZE/frame-size integrity guards of BGZF and CRAM on every success exit, CRAM Ok(0) only on "
                 "the is_eof edge dominated by the header CRC comparison, index readers without raw read() and with try_from-converted counts, "
                 "no untabled error-to-success conversion, the bgzf block loader returning a nonzero length only for a block it read. Prefix equality of what was yielded is not decided.",
-        "note": "the never-panics clause is C15's inventory; a BGZF file cut at a block boundary reads as a shorter clean stream by format design; genuine defects F25 (eager BCF reader: partial prefix = EOF, previously mis-triaged as safe by this suite) and F26 (bgzf direct read fabricated bytes at EOF) repaired (fix: abb968d, 24c37d2); R7 fill_buf loops have an emptiness-controlled exit (no hang on truncation); R8 no Result consumed as an iterator; round 7: R9 read_exact contract (seed: MT reader read_exact answering Ok for a partly filled buffer); genuine defect F63 (rejected block served on the next read) repaired (fix: 3c2f25e; R10)",
+        "note": "the never-panics clause is C15's inventory; a BGZF file cut at a block boundary reads as a shorter clean stream by format design; genuine defects F25 (eager BCF reader: partial prefix = EOF, previously mis-triaged as safe by this suite) and F26 (bgzf direct read fabricated bytes at EOF) repaired (fix: abb968d, 24c37d2); R7 fill_buf loops have an emptiness-controlled exit (no hang on truncation); R8 no Result consumed as an iterator; round 7: R9 read_exact contract (seed: MT reader read_exact answering Ok for a partly filled buffer); genuine defect F63 (rejected block served on the next read) repaired (fix: 3c2f25e; R10); round 9: R11 no chunks(n) in the index readers (seed: gzi reader panicking on a cut entry)",
         "technique": "static analysis: guard dominance, call-site classification, Err-edge reachability (MIR)",
         "design_ref": "§5 C13",
     },
@@ -195,7 +195,7 @@ CLAIMED.update({
                 "present (path rule over six write_bins bodies), duplicate bins rejected, magic numbers single-sourced, optional trailing count read as "
                 "optional, reg2bin/reg2bins coordinate convention, append-buffer discipline of the text index readers (crai, fai). Binning arithmetic (reg2bin ∈ reg2bins, optimize_chunks) and "
                 "byte layout are NOT decided.",
-        "note": "genuine defect F14 (crai read_index never cleared its line buffer: every multi-entry CRAI unreadable) found by R7 and repaired (fix: f7bcce1); the CSI loffset write transform (read(write(ix)) != ix, findings/repro f4) is query-equivalent after fix 42bd27d and therefore not armed; genuine defect F32 repaired (fix: b31c2e2); R10 no raw read() in index readers; round 7: R11 linear-index window convention (seed: start >> 14 on a 1-based position)",
+        "note": "genuine defect F14 (crai read_index never cleared its line buffer: every multi-entry CRAI unreadable) found by R7 and repaired (fix: f7bcce1); the CSI loffset write transform (read(write(ix)) != ix, findings/repro f4) is query-equivalent after fix 42bd27d and therefore not armed; genuine defect F32 repaired (fix: b31c2e2); R10 no raw read() in index readers; round 7: R11 linear-index window convention (seed: start >> 14 on a 1-based position); round 9: R12 the CSI readers keep every loffset whatever its value (seed: async reader dropping loffset 0)",
         "technique": "static analysis: caller sets, evaluated constants, presence/dominance of the pseudo-bin guards (MIR)",
         "design_ref": "§5 C17",
     },
@@ -227,7 +227,7 @@ CLAIMED.update({
                 "subtypes against all decoders of the family incl. the lazy record's; missing markers; BAM header dictionary check; RNEXT '='; every success "
                 "path of the parser resets each column of a reused RecordBuf; every appended line buffer is reset first (append-buffer discipline). "
                 "Float text, integer widths, fixed-point equality and the header grammar are NOT decided.",
-        "note": "value formatting is unit-test territory; R8 packed sequence bytes are never decoded without the base count; round 7: R9 no raw write in the SAM text writers (seed: SEQ handed over with one write)",
+        "note": "value formatting is unit-test territory; R8 packed sequence bytes are never decoded without the base count; round 7: R9 no raw write in the SAM text writers (seed: SEQ handed over with one write); round 9: R10 no unproven narrowing cast in the SAM text writers (seed: float written through i32)",
         "technique": "static analysis: call sequences in reverse post-order, def-use from split/accessor to setter/writer, HIR match-table agreement, evaluated constants",
         "design_ref": "§5 C06",
     },
